@@ -193,6 +193,7 @@ class no_cache(object):
             return CacheInfo(stats[HIT], stats[MISS], stats[LOAD], maxsize, len(cache))
 
         # interface
+        update_wrapper(wrapper, user_function) # (first: it also copies attributes)
         wrapper.__wrapped__ = user_function
         #XXX: better is handle to key_function=keygen(ignore)(user_function) ?
         wrapper.info = info
@@ -207,7 +208,7 @@ class no_cache(object):
         wrapper.__mask__ = __get_mask
         wrapper.__map__ = __get_keymap
        #wrapper._queue = None  #XXX
-        return update_wrapper(wrapper, user_function)
+        return wrapper
 
     def __get__(self, obj, objtype):
         """support instance methods"""
@@ -382,6 +383,7 @@ class inf_cache(object):
             return CacheInfo(stats[HIT], stats[MISS], stats[LOAD], maxsize, len(cache))
 
         # interface
+        update_wrapper(wrapper, user_function) # (first: it also copies attributes)
         wrapper.__wrapped__ = user_function
         #XXX: better is handle to key_function=keygen(ignore)(user_function) ?
         wrapper.info = info
@@ -396,7 +398,7 @@ class inf_cache(object):
         wrapper.__mask__ = __get_mask
         wrapper.__map__ = __get_keymap
        #wrapper._queue = None  #XXX
-        return update_wrapper(wrapper, user_function)
+        return wrapper
 
     def __get__(self, obj, objtype):
         """support instance methods"""
@@ -609,6 +611,7 @@ class lfu_cache(object):
             return CacheInfo(stats[HIT], stats[MISS], stats[LOAD], maxsize, len(cache))
 
         # interface
+        update_wrapper(wrapper, user_function) # (first: it also copies attributes)
         wrapper.__wrapped__ = user_function
         #XXX: better is handle to key_function=keygen(ignore)(user_function) ?
         wrapper.info = info
@@ -623,7 +626,7 @@ class lfu_cache(object):
         wrapper.__mask__ = __get_mask
         wrapper.__map__ = __get_keymap
        #wrapper._queue = use_count #XXX
-        return update_wrapper(wrapper, user_function)
+        return wrapper
 
     def __get__(self, obj, objtype):
         """support instance methods"""
@@ -866,6 +869,7 @@ class lru_cache(object):
             return CacheInfo(stats[HIT], stats[MISS], stats[LOAD], maxsize, len(cache))
 
         # interface
+        update_wrapper(wrapper, user_function) # (first: it also copies attributes)
         wrapper.__wrapped__ = user_function
         #XXX: better is handle to key_function=keygen(ignore)(user_function) ?
         wrapper.info = info
@@ -880,7 +884,7 @@ class lru_cache(object):
         wrapper.__mask__ = __get_mask
         wrapper.__map__ = __get_keymap
        #wrapper._queue = queue #XXX
-        return update_wrapper(wrapper, user_function)
+        return wrapper
 
     def __get__(self, obj, objtype):
         """support instance methods"""
@@ -1101,6 +1105,7 @@ class mru_cache(object):
             return CacheInfo(stats[HIT], stats[MISS], stats[LOAD], maxsize, len(cache))
 
         # interface
+        update_wrapper(wrapper, user_function) # (first: it also copies attributes)
         wrapper.__wrapped__ = user_function
         #XXX: better is handle to key_function=keygen(ignore)(user_function) ?
         wrapper.info = info
@@ -1115,7 +1120,7 @@ class mru_cache(object):
         wrapper.__mask__ = __get_mask
         wrapper.__map__ = __get_keymap
        #wrapper._queue = queue #XXX
-        return update_wrapper(wrapper, user_function)
+        return wrapper
 
     def __get__(self, obj, objtype):
         """support instance methods"""
@@ -1320,6 +1325,7 @@ class rr_cache(object):
             return CacheInfo(stats[HIT], stats[MISS], stats[LOAD], maxsize, len(cache))
 
         # interface
+        update_wrapper(wrapper, user_function) # (first: it also copies attributes)
         wrapper.__wrapped__ = user_function
         #XXX: better is handle to key_function=keygen(ignore)(user_function) ?
         wrapper.info = info
@@ -1334,7 +1340,7 @@ class rr_cache(object):
         wrapper.__mask__ = __get_mask
         wrapper.__map__ = __get_keymap
        #wrapper._queue = None  #XXX
-        return update_wrapper(wrapper, user_function)
+        return wrapper
 
     def __get__(self, obj, objtype):
         """support instance methods"""
